@@ -13,7 +13,7 @@ import (
 func init() {
 	register(&Spec{ID: "C15", Title: "The packet queue behaves as a byte FIFO across packet boundaries", Run: runC15,
 		Meta: core.Meta{
-			Explanation: "Clauses of the FIFO property whose truth is in the shape of the code; the step-by-step equality with a flat byte model is not decided. R15.1 (io.Reader / io.Writer clause): in every method of the module with the io.Reader signature the caller's slice is written (operand of copy, of an element store, or handed to a callee that does); PacketQueue.Write hands its slice to WriteBytes. R15.2 (typed read/write sibling table): UintK = Bytes(K/8) + endian.UintK, WriteUintK = make([]byte, K/8) + endian.PutUintK + WriteBytes, IntK/WriteIntK delegate to the unsigned sibling of the same width through a conversion, Byte/WriteByte use one byte, String/WriteString delegate to Bytes/WriteBytes; the package-level `endian` is assigned nowhere after its initialiser. R15.3: Bytes returns only nil/ErrNotEnoughBytes and succeeds only when n bytes were copied (C07 R07.2). R15.4: Reset assigns all four state fields. R15.5: AllPacketsConsumed's answer always depends on the packet index having reached the end of the queue: every non-false answer is a comparison of indexPacket with len(queue), or is computed under such a comparison. R15.6: the live packet size (packetSize()) only sizes NEW packets; free space in the packet being filled is computed from that packet's own header length/body (a size change while a packet is partly filled must not change its capacity). R15.7: DiscardUntilCurrentPosition evaluates its end-of-packet test after the queue was shifted and indexPacket reset, on queue[indexPacket] (the packet under the position). R15.8: AddPacket changes nothing but recvEOM and queue = append(queue, packet). R15.9 = R02.6 (read results are fresh buffers).",
+			Explanation: "Clauses of the FIFO property whose truth is in the shape of the code; the step-by-step equality with a flat byte model is not decided. R15.1 (io.Reader / io.Writer clause): in every method of the module with the io.Reader signature the caller's slice is written (operand of copy, of an element store, or handed to a callee that does); PacketQueue.Write hands its slice to WriteBytes. R15.2 (typed read/write sibling table): UintK = Bytes(K/8) + endian.UintK, WriteUintK = make([]byte, K/8) + endian.PutUintK + WriteBytes, IntK/WriteIntK delegate to the unsigned sibling of the same width through a conversion, Byte/WriteByte use one byte, String/WriteString delegate to Bytes/WriteBytes; the package-level `endian` is assigned nowhere after its initialiser. R15.3: Bytes returns only nil/ErrNotEnoughBytes and succeeds only when n bytes were copied (C07 R07.2). R15.4: Reset assigns all four state fields. R15.5: AllPacketsConsumed's answer always depends on the packet index having reached the end of the queue: every non-false answer is a comparison of indexPacket with len(queue), or is computed under such a comparison. R15.6: the live packet size (packetSize()) only sizes NEW packets; free space in the packet being filled is computed from that packet's own header length/body (a size change while a packet is partly filled must not change its capacity). R15.7: DiscardUntilCurrentPosition evaluates its end-of-packet test after the queue was shifted and indexPacket reset, on queue[indexPacket] (the packet under the position). R15.8: AddPacket changes nothing but recvEOM and queue = append(queue, packet). R15.10: SetPosition stores both of its parameters into indexPacket/indexData on every path (a position obtained from Position() is always a valid position, including the one just behind the last packet). R15.1 also requires that Read asks Bytes for exactly len(p) bytes of its parameter and copies into that parameter. R15.9 = R02.6 (read results are fresh buffers).",
 			NotDecided:  "Copy arithmetic across packets, discard, fill order and position save/restore semantics are not decided.",
 			Assumptions: []string{"encoding/binary ByteOrder semantics"},
 		}})
@@ -30,7 +30,8 @@ func runC15(r *core.Run) {
 	r.Rule("R15.7", "DiscardUntilCurrentPosition drops the packet under the position only, after the shift", 1, false)
 	r.Rule("R15.8", "AddPacket only appends: it neither moves the position nor drops queued packets", 1, false)
 	r.Rule("R15.9", "read results do not alias queue storage", 1, false)
-	r.Rule("R15.6", "the live packet size only sizes new packets", 2, true)
+	r.Rule("R15.10", "SetPosition restores exactly the given position, unconditionally", 1, false)
+	r.Rule("R15.6", "the live packet size only sizes new packets", 1, true)
 
 	// R15.1: every module method with signature Read([]byte) (int, error)
 	for _, fn := range p.ModuleFuncs() {
@@ -66,6 +67,8 @@ func runC15(r *core.Run) {
 	c15PacketSize(r)
 	c15Discard(r)
 	c15AddPacket(r)
+	c15SetPosition(r)
+	c15ReadExact(r)
 	okF, whyF := bytesReturnsFresh(p)
 	r.Check(okF, "R15.9", "PacketQueue.Bytes returns a buffer of its own", p.Func("tds", "PacketQueue", "Bytes").Pos(), "make([]byte, n) allocated by the call", whyF)
 }
@@ -507,4 +510,69 @@ func c15AddPacket(r *core.Run) {
 		}
 	}
 	r.Check(ok, "R15.8", "AddPacket only appends", fn.Pos(), "stores: queue = append(queue, packet); recvEOM", why)
+}
+
+func c15SetPosition(r *core.Run) {
+	p := r.Prog
+	fn := p.Func("tds", "PacketQueue", "SetPosition")
+	fIdxP := p.Field("tds", "PacketQueue", "indexPacket")
+	fIdxD := p.Field("tds", "PacketQueue", "indexData")
+	ok, why := true, ""
+	nret := 0
+	core.EnumPaths(fn.Blocks[0], func(b *ssa.BasicBlock) bool { return false }, nil, 200, func(pa core.Path, ended bool) {
+		last := pa.Blocks[len(pa.Blocks)-1]
+		if _, isRet := last.Instrs[len(last.Instrs)-1].(*ssa.Return); !isRet || last == fn.Recover {
+			return
+		}
+		nret++
+		sp, sd := false, false
+		for _, b := range pa.Blocks {
+			for _, in := range b.Instrs {
+				st, isSt := in.(*ssa.Store)
+				if !isSt {
+					continue
+				}
+				fa, isFA := st.Addr.(*ssa.FieldAddr)
+				if !isFA {
+					continue
+				}
+				if core.FieldOfAddr(fa) == fIdxP && len(fn.Params) == 3 && st.Val == ssa.Value(fn.Params[1]) {
+					sp = true
+				}
+				if core.FieldOfAddr(fa) == fIdxD && len(fn.Params) == 3 && st.Val == ssa.Value(fn.Params[2]) {
+					sd = true
+				}
+			}
+		}
+		if !sp || !sd {
+			ok, why = false, "SetPosition can return without restoring the given position (a conditional guard ignores some positions): restoring a position saved by Position() — e.g. the one just behind the last packet — silently does nothing and consumed bytes are read again"
+		}
+	})
+	r.Check(ok && nret > 0, "R15.10", "SetPosition stores both indices on every path", fn.Pos(), "indexPacket, indexData := parameters, unconditionally", why)
+}
+
+func c15ReadExact(r *core.Run) {
+	p := r.Prog
+	fn := p.Func("tds", "PacketQueue", "Read")
+	bytesFn := p.Func("tds", "PacketQueue", "Bytes")
+	if len(fn.Params) != 2 {
+		return
+	}
+	pp := fn.Params[1]
+	okLen, okCopy := false, false
+	for _, c := range callsTo(fn, bytesFn) {
+		if x, isLen := isLenCall(c.Common().Args[1]); isLen && x == ssa.Value(pp) {
+			okLen = true
+		}
+	}
+	for _, c := range core.Calls(fn) {
+		cc, ok := c.(*ssa.Call)
+		if !ok {
+			continue
+		}
+		if bi, isB := cc.Call.Value.(*ssa.Builtin); isB && bi.Name() == "copy" && cc.Call.Args[0] == ssa.Value(pp) {
+			okCopy = true
+		}
+	}
+	r.Check(okLen && okCopy, "R15.1", "(*tds.PacketQueue).Read: asks for len(p) bytes and copies into p", fn.Pos(), "Bytes(len(p)); copy(p, ...)", "Read does not request exactly len(p) bytes of the caller's buffer and copy into that buffer: with enough bytes queued it returns fewer than len(p) bytes with a nil error and leaves the tail of the buffer untouched")
 }
